@@ -12,6 +12,8 @@ CONSTANTS
   MaxOps = 4
   MaxFaults = 0
   MaxData = 1
+  MaxLate = 0
+  TocAlts = {}
   IdMod = 255
   Bugs = {"dup_readd"}
   WithSync = FALSE
